@@ -52,6 +52,10 @@ _dl("net", ["network:find_urls", "network:find_ips", "network:find_domains", "ne
 _dl("url", ["network:find_urls", "network:normalize_path", "network:normalize_percent_encoding"],
     ["http://", "a.com", "1.2.3.4", "%41", "%2f", "%zz", "%5B", "[", "::1", "]", ":", "80", "@", "/", "..", ".", "?", "#", "%", "%4"],
     {"quick": 3, "thorough": 4}, wraps=((b"", b""), (b"http://a.com", b""), (b"('http://", b"')"), (b"see http://[::1", b"]/x ok"), (b"ftp://u:p@[fe80::1%25", b"]:21/")))
+_dl("pctnest", ["network:find_urls", "network:normalize_percent_encoding"],
+    ["%", "%4", "%25", "%33", "%34", "%3", "3", "4", "7", "1", "%2", "5"], {"quick": 4, "thorough": 5},
+    wraps=((b"http://[fe80::1", b"]/x"), (b"http://a", b".com/"), (b"http://a.com/", b" "), (b"http://u", b"@a.com/"), (b"http://a.com:8", b"/"), (b"http://a.com/?", b"#f"),
+           (b"http://1.2.3.", b"/x")))
 _dl("winpath", ["path:find_windows_path", "path:find_path"], families.get("winpath").tokens, {"quick": 4, "thorough": 5})
 _dl("strings", ["concat:find_concat", "reverse:find_reverse", "vba:find_strreverse", "vba:find_createobject", "replace:find_replace",
                 "replace:find_vba_replace", "replace:find_powershell_replace", "replace:find_js_regex_replace"],
